@@ -5,7 +5,10 @@
 //!     <op> ...            one per line, see `Op`
 //!     end
 //! `n0`/`n1` = number of recording layers (1 or 2) on registry instance 0 / 1.  Each instance is
-//! `Registry + ErrorSubscriber + Rec<1> [+ Rec<2>]`.  With `global 1` instance 0 is installed as the
+//! `Registry + ErrorSubscriber + Rec<1> [+ Rec<2>] + FRec.with_filter(LevelFilter::INFO)`: the outermost layer has a
+//! per-subscriber filter (spans created with the `d` flag are DEBUG = disabled for it) and records, inside on_event, what
+//! IT sees as current span / event parent / event scope (`fevent`).  Spans and events are created the way the macros do:
+//! `enabled()` first, then `new_span` / `event`.  With `global 1` instance 0 is installed as the
 //! process-global default (the driver uses one process per such case).
 //!
 //! Every op is executed by one of three real worker threads, one op at a time (the controller waits
@@ -25,8 +28,9 @@ use tracing::{Dispatch, Event, Metadata, Span};
 use tracing_core::{callsite::Callsite, dispatch, span, Collect, Interest, Kind, Level};
 use tracing_error::{ErrorSubscriber, SpanTrace};
 use tracing_subscriber::{
+    filter::LevelFilter,
     prelude::*,
-    registry::{LookupSpan, Registry},
+    registry::{LookupSpan, Registry, SpanRef},
     subscribe::Context,
     Subscribe,
 };
@@ -44,6 +48,9 @@ macro_rules! span_meta {
     ($($name:literal),*) => {
         static SPAN_META: [Metadata<'static>; 32] = [
             $( tracing_core::metadata! { name: $name, target: "h_registry", level: Level::INFO, fields: &[], callsite: &CS, kind: Kind::SPAN } ),*
+        ];
+        static SPAN_META_D: [Metadata<'static>; 32] = [
+            $( tracing_core::metadata! { name: $name, target: "h_registry", level: Level::DEBUG, fields: &[], callsite: &CS, kind: Kind::SPAN } ),*
         ];
     };
 }
@@ -176,12 +183,37 @@ where
     }
 }
 
+/// The layer behind a per-subscriber filter: what the FILTERED subscriber sees inside on_event.
+struct FRec {
+    inst: usize,
+}
+impl<C> Subscribe<C> for FRec
+where
+    C: Collect + for<'a> LookupSpan<'a>,
+{
+    fn on_event(&self, ev: &Event<'_>, ctx: Context<'_, C>) {
+        let cur = ctx.lookup_current().map(|s| seq_of_name(s.name()));
+        let espan = ctx.event_span(ev).map(|s| seq_of_name(s.name()));
+        let escope: Vec<i64> = ctx.event_scope(ev).map(|s| s.map(|x| seq_of_name(x.name())).collect()).unwrap_or_default();
+        let efr: Vec<i64> =
+            ctx.event_scope(ev).map(|s| s.from_root().map(|x| seq_of_name(x.name())).collect()).unwrap_or_default();
+        log(format!(
+            "{{\"k\":\"fevent\",\"i\":{},\"cur\":{},\"espan\":{},\"escope\":{},\"efromroot\":{}}}",
+            self.inst,
+            opt(cur),
+            opt(espan),
+            list(&escope),
+            list(&efr)
+        ));
+    }
+}
+
 fn make_dispatch(inst: usize, n: usize) -> Dispatch {
     let base = Registry::default().with(ErrorSubscriber::default()).with(Rec::<1> { inst });
     if n >= 2 {
-        Dispatch::new(base.with(Rec::<2> { inst }))
+        Dispatch::new(base.with(Rec::<2> { inst }).with(FRec { inst }.with_filter(LevelFilter::INFO)))
     } else {
-        Dispatch::new(base)
+        Dispatch::new(base.with(FRec { inst }.with_filter(LevelFilter::INFO)))
     }
 }
 
@@ -194,7 +226,11 @@ enum Pk {
 }
 #[derive(Clone, Debug)]
 enum Op {
-    New(u64, Pk),
+    New(u64, Pk, bool), // bool: DEBUG level (disabled for the filtered layer)
+    PDrop(u64),         // the handle is dropped while a scripted panic unwinds (caught)
+    Hold(u64, u64),     // hold k h: look the span of handle h up through its registry and keep the SpanRef in slot k
+    Poke(u64),          // poke k: write an extension through the held SpanRef
+    Release(u64),       // release k: drop the held SpanRef
     Clone(u64, u64),
     Drop(u64),
     Enter(u64),
@@ -249,6 +285,7 @@ struct Worker {
     guard: Option<dispatch::DefaultGuard>,
     def: Option<Option<usize>>, // own scoped default
     guards: HashMap<u64, EnteredSpan>,
+    refs: HashMap<u64, SpanRef<'static, Registry>>,
 }
 
 impl Worker {
@@ -281,7 +318,7 @@ impl Worker {
     fn exec(&mut self, op: &Op) {
         let sh = self.sh.clone();
         match op {
-            Op::New(h, pk) => {
+            Op::New(h, pk, dbg) => {
                 if lock(&sh.handles).contains_key(h) {
                     log("{\"k\":\"ill\",\"c\":1}".into());
                     return;
@@ -291,8 +328,10 @@ impl Worker {
                     return;
                 };
                 let q = NEXT_Q.load(Ordering::SeqCst);
-                let meta: &'static Metadata<'static> = &SPAN_META[q];
+                let meta: &'static Metadata<'static> = if *dbg { &SPAN_META_D[q] } else { &SPAN_META[q] };
                 let vs = meta.fields().value_set(&[]);
+                // as the macros do: ask `enabled` first (this is what lets per-subscriber filters record their verdict)
+                let _ = dispatch::get_default(|d| d.enabled(meta));
                 let parent_id: Option<Option<span::Id>> = match pk {
                     Pk::Explicit(hp) => match lock(&sh.handles).get(hp) {
                         None => {
@@ -392,8 +431,59 @@ impl Worker {
                         }
                     }
                 };
-                dispatch::get_default(|d| d.event(&ev));
+                dispatch::get_default(|d| {
+                    if d.enabled(&EVENT_META) {
+                        d.event(&ev)
+                    }
+                });
             }
+            Op::PDrop(h) => {
+                let x = lock(&sh.handles).remove(h);
+                match x {
+                    None => log("{\"k\":\"ill\",\"c\":3}".into()),
+                    Some(v) => {
+                        // the handle goes out of scope while a panic unwinds; the panic is contained here
+                        let r = catch_unwind(AssertUnwindSafe(move || {
+                            let _dropped_during_unwinding = v;
+                            std::panic::panic_any(ScriptedUnwind);
+                        }));
+                        if let Err(e) = r {
+                            if e.downcast_ref::<ScriptedUnwind>().is_none() {
+                                std::panic::resume_unwind(e);
+                            }
+                        }
+                    }
+                }
+            }
+            Op::Hold(k, h) => {
+                if self.refs.contains_key(k) {
+                    log("{\"k\":\"ill\",\"c\":1}".into());
+                    return;
+                }
+                if let Some((id, d)) = self.pair_of(*h) {
+                    // the registry lives as long as this leaked clone of its Dispatch
+                    let d: &'static Dispatch = Box::leak(Box::new(d));
+                    match d.downcast_ref::<Registry>().and_then(|r| r.span(&id)) {
+                        Some(sp) => {
+                            log(format!("{{\"k\":\"hold\",\"q\":{}}}", seq_of_name(sp.name())));
+                            self.refs.insert(*k, sp);
+                        }
+                        None => log("{\"k\":\"hold\",\"q\":null}".into()),
+                    }
+                }
+            }
+            Op::Poke(k) => match self.refs.get(k) {
+                None => log("{\"k\":\"ill\",\"c\":3}".into()),
+                Some(sp) => {
+                    let q = seq_of_name(sp.name());
+                    sp.extensions_mut().replace(Tag::<1>(900 + q));
+                    sp.extensions_mut().replace(Tag::<2>(900 + q));
+                }
+            },
+            Op::Release(k) => match self.refs.remove(k) {
+                None => log("{\"k\":\"ill\",\"c\":3}".into()),
+                Some(sp) => drop(sp),
+            },
             Op::SetDef(d) => {
                 // one guard per thread: drop the old one first
                 self.guard = None;
@@ -473,6 +563,9 @@ impl Worker {
                     for (_, g) in self.guards.drain() {
                         std::mem::forget(g);
                     }
+                    for (_, r) in self.refs.drain() {
+                        std::mem::forget(r);
+                    }
                 } else {
                     // drop guards in creation order (ids ascending) for determinism
                     let mut ks: Vec<u64> = self.guards.keys().cloned().collect();
@@ -482,6 +575,9 @@ impl Worker {
                         drop(g);
                     }
                 }
+                for (_, r) in self.refs.drain() {
+                    std::mem::forget(r);
+                }
                 self.guard = None;
                 self.def = None;
             }
@@ -489,8 +585,11 @@ impl Worker {
     }
 }
 
+/// payload of the scripted panic of `pdrop`
+struct ScriptedUnwind;
+
 fn worker_main(sh: Arc<Shared>, rx: Receiver<Op>, tx: Sender<Option<String>>) {
-    let mut w = Worker { sh, guard: None, def: None, guards: HashMap::new() };
+    let mut w = Worker { sh, guard: None, def: None, guards: HashMap::new(), refs: HashMap::new() };
     while let Ok(op) = rx.recv() {
         let r = catch_unwind(AssertUnwindSafe(|| w.exec(&op)));
         let fin = matches!(op, Op::Finish(_));
@@ -514,7 +613,11 @@ fn parse_op(f: &[&str]) -> (usize, Op) {
     let t: usize = f[1].parse().unwrap();
     let n = |k: usize| -> u64 { f[k].parse().unwrap() };
     let op = match f[0] {
-        "new" => Op::New(n(2), parse_pk(&f[3..])),
+        "new" => Op::New(n(2), parse_pk(&f[3..]), f.last() == Some(&"d")),
+        "pdrop" => Op::PDrop(n(2)),
+        "hold" => Op::Hold(n(2), n(3)),
+        "poke" => Op::Poke(n(2)),
+        "release" => Op::Release(n(2)),
         "clone" => Op::Clone(n(2), n(3)),
         "drop" => Op::Drop(n(2)),
         "enter" => Op::Enter(n(2)),
